@@ -63,21 +63,7 @@ struct screen_stepper : stepper
         scr = std::make_unique<screen>(*t);
     }
     bool done() const override { return i >= parts.size(); }
-    void step() override
-    {
-        reader r(parts[i++]);
-        std::string op = r.word();
-        if (screen_edit_op(op, r, cvs)) {}
-        else if (op == "tsz") { long w = r.num(), h = r.num(); t->set_size({(coordinate_type)w, (coordinate_type)h}); }
-        else if (op == "dr") {
-            ch.out.clear();
-            scr->draw(cvs);
-            std::string st;
-            *t << peek_state{&st};
-            if (!res.empty()) res += " ; ";
-            res += hex(ch.out) + " / " + st;
-        }
-    }
+    void step() override { screen_script_op(parts[i++], *t, *scr, cvs, ch, res); }
     std::string result() override { return res.empty() ? "-" : res; }
 };
 
